@@ -46,6 +46,14 @@ func (c *Chain) CreateTMClient(cp *Chain, delay uint64) {
 	Must(c.App.XIBCKeeper.ClientKeeper.CreateClient(c.Ctx(), cp.ChainID, cs, h.ConsensusState()), "create TM client")
 }
 
+// TMClientAt returns the Tendermint client and consensus state describing cp at its last committed header.
+func (c *Chain) TMClientAt(cp *Chain, delay uint64) (*xibctmtypes.ClientState, *xibctmtypes.ConsensusState) {
+	h := cp.LastHeader
+	cs := xibctmtypes.NewClientState(cp.ChainID, xibctmtypes.DefaultTrustLevel, TrustingPeriod, UnbondingPeriod,
+		MaxClockDrift, h.GetHeight().(clienttypes.Height), commitmenttypes.GetSDKSpecs(), commitmenttypes.MerklePrefix{KeyPrefix: []byte("xibc")}, delay)
+	return cs, h.ConsensusState()
+}
+
 // CreateTSSClient installs on c a TSS client for pseudo chain `name` controlled by tssAcc.
 func (c *Chain) CreateTSSClient(name string, tssAcc sdk.AccAddress) {
 	cs := &tsstypes.ClientState{TssAddress: tssAcc.String(), Pubkey: []byte("pubkey"), PartPubkeys: [][]byte{[]byte("p1")}}
